@@ -38,14 +38,14 @@ template <typename V> static inline int observe0(const V& mv, const size_t* idx,
 #if defined(R_OUTER)
 BIN(outer,1,1,view::outer(a,b)) BIN(outer,2,1,view::outer(a,b)) BIN(outer,1,2,view::outer(a,b))
 #elif defined(R_VECDOT)
-BIN(vecdot,1,1,view::vecdot(a,b)) BIN(vecdot,2,2,view::vecdot(a,b)) BIN(vecdot,2,1,view::vecdot(a,b))
+BIN(vecdot,1,1,view::vecdot(a,b)) BIN(vecdot,2,2,view::vecdot(a,b)) BIN(vecdot,2,1,view::vecdot(a,b)) BIN(vecdot,1,2,view::vecdot(a,b))
 #elif defined(R_TRACE)
 KERNEL int K(k_trace_2)(SIG1){ h_t<2> a; if (!mkd(a,sa,da)) return -1; return observe0(view::trace(a), idx, nidx, oshape, odim, out); }
 KERNEL int K(k_trace_3)(SIG1){ h_t<3> a; if (!mkd(a,sa,da)) return -1; return observe0(view::trace(a), idx, nidx, oshape, odim, out); }
 #elif defined(R_DOT)
-BIN(dot,1,1,view::dot(a,b)) BIN(dot,2,2,view::dot(a,b)) BIN(dot,2,1,view::dot(a,b))
+BIN(dot,1,1,view::dot(a,b)) BIN(dot,2,2,view::dot(a,b)) BIN(dot,2,1,view::dot(a,b)) BIN(dot,1,2,view::dot(a,b)) BIN(dot,1,3,view::dot(a,b)) BIN(dot,2,3,view::dot(a,b)) BIN(dot,3,2,view::dot(a,b))
 #elif defined(R_INNER)
-BIN(inner,1,1,view::inner(a,b)) BIN(inner,2,2,view::inner(a,b)) BIN(inner,2,1,view::inner(a,b))
+BIN(inner,1,1,view::inner(a,b)) BIN(inner,2,2,view::inner(a,b)) BIN(inner,2,1,view::inner(a,b)) BIN(inner,1,2,view::inner(a,b))
 #elif defined(R_KRON)
 BIN(kron,1,1,view::kron(a,b)) BIN(kron,2,2,view::kron(a,b))
 #elif defined(R_TENSORDOT)
